@@ -95,7 +95,8 @@ type line struct {
 	op      string
 	setting string // eval/set/authset
 	oidc    string // list/authlist
-	roc     string
+	roc     string // value of the AetherROCAdmin variable …
+	rocSet  bool   // … when it is defined at all (defined-but-empty is a case of its own)
 	ents    []string
 	md      []kv
 	claims  []claim
@@ -128,8 +129,11 @@ func parseLine(ln string) line {
 		if l.oidc, ok = fw.DecStr(rest[0]); !ok {
 			return l
 		}
-		if l.roc, ok = fw.DecStr(rest[1]); !ok {
-			return l
+		if rest[1] != "unset" {
+			if l.roc, ok = fw.DecStr(rest[1]); !ok {
+				return l
+			}
+			l.rocSet = true
 		}
 		if l.ents, ok = decList(rest[2][4:]); !ok {
 			return l
@@ -196,6 +200,13 @@ func parseLine(ln string) line {
 	return l
 }
 
+func (l line) rocTok() string {
+	if !l.rocSet {
+		return "unset"
+	}
+	return fw.EncStr(l.roc)
+}
+
 func (l line) String() string {
 	switch l.op {
 	case "eval", "set":
@@ -203,9 +214,9 @@ func (l line) String() string {
 	case "authset":
 		return fw.Join("rbac.authset", fw.EncStr(l.setting), encClaims(l.claims), encMd(l.md))
 	case "list":
-		return fw.Join("rbac.list", fw.EncStr(l.oidc), fw.EncStr(l.roc), "ent:"+encList(l.ents), encMd(l.md))
+		return fw.Join("rbac.list", fw.EncStr(l.oidc), l.rocTok(), "ent:"+encList(l.ents), encMd(l.md))
 	case "authlist":
-		return fw.Join("rbac.authlist", fw.EncStr(l.oidc), fw.EncStr(l.roc), "ent:"+encList(l.ents), encClaims(l.claims), encMd(l.md))
+		return fw.Join("rbac.authlist", fw.EncStr(l.oidc), l.rocTok(), "ent:"+encList(l.ents), encClaims(l.claims), encMd(l.md))
 	case "split", "fields":
 		return "rbac." + l.op + " " + fw.EncStr(l.a) + " " + fw.EncStr(l.b)
 	}
@@ -217,11 +228,17 @@ func (l line) String() string {
 // Everything that reads process-wide state (environment variables, the shared store) runs under mu.
 var mu sync.Mutex
 
+// defined marks a variable that must be defined even when its value is empty.
+const defined = "\x00defined:"
+
 func withEnv(env map[string]string, f func()) {
 	for k, v := range env {
-		if v == "" {
+		switch {
+		case strings.HasPrefix(v, defined):
+			_ = os.Setenv(k, strings.TrimPrefix(v, defined))
+		case v == "":
 			_ = os.Unsetenv(k)
-		} else {
+		default:
 			_ = os.Setenv(k, v)
 		}
 	}
@@ -406,7 +423,12 @@ func doSet(ctx context.Context, setting string) string {
 	return out
 }
 
-func doList(ctx context.Context, oidc, roc string, ents []string) string {
+func doList(ctx context.Context, oidc string, roc string, rocSet bool, ents []string) string {
+	if rocSet {
+		roc = defined + roc
+	} else {
+		roc = ""
+	}
 	calls := 0
 	srv := gnmisrv.NewServerForVerif(&fakeTopo{calls: &calls, ents: ents}, nil, nil, nil, fakeRegistry{&calls}, nil, 0)
 	req := &gnmi.GetRequest{Path: []*gnmi.Path{{Target: "*"}}, Encoding: gnmi.Encoding_PROTO}
@@ -464,7 +486,7 @@ func exec(ln string) (out string) {
 		}
 		return doSet(ctx, l.setting)
 	case "list":
-		return doList(metadata.NewIncomingContext(context.Background(), rawMD(l.md)), l.oidc, l.roc, l.ents)
+		return doList(metadata.NewIncomingContext(context.Background(), rawMD(l.md)), l.oidc, l.roc, l.rocSet, l.ents)
 	case "authlist":
 		var ctx context.Context
 		var err error
@@ -472,7 +494,7 @@ func exec(ln string) (out string) {
 		if err != nil {
 			return "auth-error " + err.Error()
 		}
-		return doList(ctx, l.oidc, l.roc, l.ents)
+		return doList(ctx, l.oidc, l.roc, l.rocSet, l.ents)
 	case "split":
 		parts := strings.Split(l.b, l.a)
 		e := make([]string, len(parts))
@@ -644,6 +666,9 @@ func monitor(c fw.Case, out []string) []string {
 			own := map[string]bool{}
 			holdsRoc := false
 			for _, g := range groups {
+				if g == "" {
+					continue // the empty piece of an absent / empty value or a trailing ';' is not a group
+				}
 				own[g] = true
 				if g == roc {
 					holdsRoc = true
@@ -954,7 +979,12 @@ func gen(r *rng.R, tier string) fw.Case {
 			ents = append(ents, r.Pick(entsPool))
 		}
 		oidc := r.Pick([]string{"", "http://dex:5556", "x"})
-		roc := r.Pick([]string{"", "", "RocAdmins", "a"})
+		// the override variable: unset, defined but empty, or naming a group
+		rocSet := r.Chance(3, 5)
+		roc := ""
+		if rocSet {
+			roc = r.Pick([]string{"", "", "RocAdmins", "a"})
+		}
 		extra := append([]string{"AetherROCAdmin"}, ents...)
 		if roc != "" {
 			extra = append(extra, roc)
@@ -964,10 +994,30 @@ func gen(r *rng.R, tier string) fw.Case {
 			if r.Chance(1, 3) {
 				client = genMd(r, "", extra, true, false)
 			}
-			ls = append(ls, line{op: "authlist", oidc: oidc, roc: roc, ents: ents, md: client, claims: genClaims(r, "", extra)})
+			ls = append(ls, line{op: "authlist", oidc: oidc, roc: roc, rocSet: rocSet, ents: ents, md: client, claims: genClaims(r, "", extra)})
 			tags = append(tags, "authlist")
 		} else {
-			ls = append(ls, line{op: "list", oidc: oidc, roc: roc, ents: ents, md: genMd(r, "", extra, true, malformed)})
+			md := genMd(r, "", extra, true, malformed)
+			if r.Chance(1, 4) {
+				// callers without real groups: no groups value, an empty one, separators only, a trailing ';'
+				var keep []kv
+				for _, e := range md {
+					if strings.ToLower(e.key) != "groups" && strings.ToLower(e.key) != "name" {
+						keep = append(keep, e)
+					}
+				}
+				md = append(keep, kv{"name", []string{"bob"}})
+				switch r.Intn(4) {
+				case 0:
+				case 1:
+					md = append(md, kv{"groups", []string{r.Pick([]string{"", ";", ";;"})}})
+				default:
+					if len(ents) > 0 {
+						md = append(md, kv{"groups", []string{r.Pick(ents) + r.Pick([]string{";", ";;", ""})}})
+					}
+				}
+			}
+			ls = append(ls, line{op: "list", oidc: oidc, roc: roc, rocSet: rocSet, ents: ents, md: md})
 			tags = append(tags, "list")
 		}
 	}
